@@ -104,6 +104,17 @@ theorem henry_object_unit_mode_agrees (h : Henry ℝ) (τ x K : ℝ) (hK : K ≠
   · simp only [Henry.getPU, Henry.getP, e]
   · simp only [Henry.callWithUnits, e, Henry.at_T0]
 
+/-- a units object passed although every argument is a plain number in the documented unit (explicit reference temperature): the value is the
+    plain one whatever the units object is (L1), `to_unitless` of a plain number is that number (L2), and the deprecated alias `get_kH_at_T` is `__call__` -/
+theorem henry_plain_arguments_with_units_object (T H θ T0 K k : ℝ) (h : Henry ℝ) :
+    henryHAtTU T H θ T0 K = henryHAtT T H θ T0 ∧
+    henryHAtTU (α := UV ℝ) (UV.num T) (UV.num H) (UV.num θ) (UV.num T0) (UV.mk 1 k Tdim') = UV.num (henryHAtT T H θ T0) ∧
+    h.getKHAtT T = h.call T := by
+  refine ⟨?_, ?_, rfl⟩
+  · simp only [henryHAtTU, henryHAtT, NumReal.exp_def, toUnitless_def]
+  · simp only [henryHAtTU, henryHAtT, UVL.sub_def, UVL.mul_def, UVL.div_def, UVL.nat_def, UVL.tu_def, UVL.exp_def, UV.div, UV.mul, UV.addLike,
+      UV.toUnitless, UV.transc, NumReal.exp_def]
+
 /-- water_self_diffusion_coefficient with the documented `err_mult` option (D0, TS perturbed by multiples of their uncertainties):
     unit mode agrees for every perturbation, and no perturbation is the plain correlation -/
 theorem water_diffusivity_err_mult_unit_mode_agrees (τ e0 e1 K m s : ℝ) (hK : K ≠ 0) :
@@ -442,6 +453,7 @@ theorem dfc_loop_src_guard : dfcLoopSrc =
 theorem henry_call_src_guard : henryCallSrc =
     ("Henry_H_at_T(T, self.Hcp, self.Tderiv, self.T0, units=units, backend=backend)", ["self", "T", "units", "backend"]) := by decide
 
+theorem henry_get_kH_src_guard : henryGetKHSrc = ("self(*args, **kwargs)", ["self"]) := by decide
 theorem henry_getC_src_guard : henryGetCSrc = ("P * self(T, **kwargs)", ["self", "T", "P"]) := by decide
 
 theorem henry_getP_src_guard : henryGetPSrc = ("c / self(T, **kwargs)", ["self", "T", "c"]) := by decide
